@@ -297,8 +297,120 @@ func c02Class(cl string, ss []sym, r rendered, m gramResult, o parseObs) string 
 				return "arith-cmd-inside-parens"
 			}
 		}
+		// defect model: a '#' inside a word is taken for the beginning of a comment (pinned by the repository's own
+		// test "go version# comment").  Attributed only if the parser gives for this source exactly what it gives for
+		// the source with a blank in front of that '#', where POSIX, too, begins a comment.
+		if alt, ok := hashAsComment(ss, r); ok {
+			o2 := runParse(alt)
+			stripPos := func(e error) string {
+				if e == nil {
+					return ""
+				}
+				t := e.Error()
+				if k := strings.Index(t, ": "); k >= 0 {
+					t = t[k+2:]
+				}
+				return t
+			}
+			if o.pan == nil && o2.pan == nil && stripPos(o.err) == stripPos(o2.err) && dumpAST(o.cmds, false) == dumpAST(o2.cmds, false) && reflect.DeepEqual(commentTexts(o.comments), commentTexts(o2.comments)) {
+				return "hash-inside-word-starts-comment"
+			}
+		}
 	}
 	return cl
+}
+
+// hashAsComment returns the source with a blank inserted in front of the first '#' that stands inside a
+// word (not its first character, outside quotes and expansions) of each line.
+func hashAsComment(ss []sym, r rendered) (string, bool) {
+	var cut []int
+	inComment := false
+	for i, s := range ss {
+		switch s.kind {
+		case kNL:
+			inComment = false
+		case kComment:
+			inComment = true
+		case kWord:
+			if inComment {
+				continue
+			}
+			if k := topLevelHash(s.text); k > 0 {
+				cut = append(cut, r.start[i]+k)
+				inComment = true
+			}
+		}
+	}
+	if len(cut) == 0 {
+		return "", false
+	}
+	var b strings.Builder
+	prev := 0
+	for _, c := range cut {
+		b.WriteString(r.src[prev:c])
+		b.WriteByte(' ')
+		prev = c
+	}
+	b.WriteString(r.src[prev:])
+	return b.String(), true
+}
+
+// topLevelHash: index of the first '#' of the word text that is outside quotes, backslash escapes and
+// expansions and is not the word's first character; -1 if none.
+func topLevelHash(t string) int {
+	depth := 0 // inside ${ } $( ) ` `
+	var closers []byte
+	for i := 0; i < len(t); i++ {
+		c := t[i]
+		if len(closers) > 0 {
+			top := closers[len(closers)-1]
+			switch {
+			case c == '\\' && top != '\'':
+				i++
+			case c == top:
+				closers = closers[:len(closers)-1]
+			case top == '\'':
+			case c == '$' && i+1 < len(t) && t[i+1] == '{':
+				closers = append(closers, '}')
+				i++
+			case c == '$' && i+1 < len(t) && t[i+1] == '(':
+				closers = append(closers, ')')
+				i++
+			case c == '(' && top == ')':
+				closers = append(closers, ')')
+			case c == '"' && top != '"':
+				closers = append(closers, '"')
+			case c == '\'' && top != '"':
+				closers = append(closers, '\'')
+			}
+			continue
+		}
+		_ = depth
+		switch c {
+		case '\\':
+			i++
+		case '\'', '"', '`':
+			closers = append(closers, c)
+		case '$':
+			if i+1 < len(t) {
+				switch t[i+1] {
+				case '{':
+					closers = append(closers, '}')
+					i++
+				case '(':
+					closers = append(closers, ')')
+					i++
+				case '#', '$', '@', '*', '?', '-', '!':
+					i++ // special parameter
+				}
+			}
+		case '#':
+			if i > 0 {
+				return i
+			}
+		}
+	}
+	return -1
 }
 
 // arithAsParens rewrites every (( )) command that stands inside an unclosed
@@ -392,7 +504,7 @@ func mutants(w *W, f func(ss []sym)) {
 	pair := syms("#c", "\n")
 	seen := map[string]bool{}
 	derivations(w.thorough(), func(name string, texts []string) {
-		if name == "WN" || name == "DH" {
+		if name == "WN" || name == "DH" || name == "WG" {
 			return
 		}
 		if !w.thorough() && name != "D0" && name != "W" && !(name == "D1" && len(texts) <= 12) {
